@@ -243,35 +243,52 @@ Fixpoint depth (v : value) : nat :=
   end.
 Definition value_eq (a b : value) : bool := veq (depth a + depth b) a b.
 
-(* ---- value_cmp (value/view.rs): Iterator::partial_cmp is lexicographic ---- *)
-Fixpoint vcmp (a b : value) {struct a} : option comparison :=
-  match a, b with
-  | VScalar x, VScalar y => scalar_cmp x y
-  | VArray x, VArray y =>
-      (fix lex (x y : list value) : option comparison :=
-         match x, y with
-         | [], [] => Some Eq
-         | [], _ :: _ => Some Lt
-         | _ :: _, [] => Some Gt
-         | u :: x', w :: y' => match vcmp u w with
-                               | Some Eq => lex x' y'
-                               | r => r end
-         end) x y
-  | VObject x, VObject y =>
-      (fix lex (x y : list (str * value)) : option comparison :=
-         match x, y with
-         | [], [] => Some Eq
-         | [], _ :: _ => Some Lt
-         | _ :: _, [] => Some Gt
-         | (k, u) :: x', (j, w) :: y' =>
-             match str_cmp k j with
-             | Eq => match vcmp u w with Some Eq => lex x' y' | r => r end
-             | c => Some c
-             end
-         end) x y
-  | _, _ => None
+(* ---- value_cmp (value/view.rs): Iterator::partial_cmp is lexicographic; object entries
+   are compared in key order (stable sort_by on the key).  On fuel, because the sorted
+   entry lists are not subterms. ---- *)
+Fixpoint insert_kv (kv : str * value) (l : list (str * value)) : list (str * value) :=
+  match l with
+  | [] => [kv]
+  | h :: t => match str_cmp (fst kv) (fst h) with
+              | Gt => h :: insert_kv kv t
+              | _ => kv :: l
+              end
   end.
-Definition value_cmp := vcmp.
+Definition sort_kvs (l : list (str * value)) : list (str * value) := fold_right insert_kv [] l.
+
+Fixpoint vcmp (n : nat) (a b : value) : option comparison :=
+  match n with
+  | O => None
+  | S n =>
+    match a, b with
+    | VScalar x, VScalar y => scalar_cmp x y
+    | VArray x, VArray y =>
+        (fix lex (x y : list value) : option comparison :=
+           match x, y with
+           | [], [] => Some Eq
+           | [], _ :: _ => Some Lt
+           | _ :: _, [] => Some Gt
+           | u :: x', w :: y' => match vcmp n u w with
+                                 | Some Eq => lex x' y'
+                                 | r => r end
+           end) x y
+    | VObject x, VObject y =>
+        (fix lex (x y : list (str * value)) : option comparison :=
+           match x, y with
+           | [], [] => Some Eq
+           | [], _ :: _ => Some Lt
+           | _ :: _, [] => Some Gt
+           | (k, u) :: x', (j, w) :: y' =>
+               match str_cmp k j with
+               | Eq => match vcmp n u w with Some Eq => lex x' y' | r => r end
+               | c => Some c
+               end
+           end) (sort_kvs x) (sort_kvs y)
+    | _, _ => None
+    end
+  end.
+Definition value_cmp (a b : value) : option comparison := vcmp (depth a + depth b) a b.
+Definition value_ne (a b : value) : bool := negb (value_eq a b).      (* PartialEq::ne default *)
 Definition v_lt a b := match value_cmp a b with Some Lt => true | _ => false end.
 Definition v_le a b := match value_cmp a b with Some Lt | Some Eq => true | _ => false end.
 Definition v_gt a b := match value_cmp a b with Some Gt => true | _ => false end.
